@@ -305,7 +305,7 @@ impl<'a> fmt::Display for TyDisp<'a> {
                 }
                 other => {
                     if let Some(rest) = other.strip_prefix("@dyn:") {
-                        write!(f, "dyn {}", rest)
+                        write!(f, "dyn {} + 'static", rest)
                     } else if let Some(rest) = other.strip_prefix("@proj:") {
                         // @proj:Trait:Name  args = [self, trait params..]
                         let mut it = rest.split(':');
@@ -342,7 +342,12 @@ pub fn ty_text(t: &MTy) -> String {
     TyDisp(t).to_string()
 }
 
+pub const FROM_ENV_TY: &str = "@FromEnvTy";
+
 pub fn pred_text(p: &MPred) -> String {
+    if p.tr == FROM_ENV_TY {
+        return format!("FromEnv({})", TyDisp(&p.args[0]));
+    }
     let mut s = format!("{}: {}", TyDisp(&p.args[0]), p.tr);
     if p.args.len() > 1 {
         s.push('<');
@@ -633,7 +638,9 @@ pub struct Sem<'a> {
     pub atom_max: usize,
     pub builtin: Option<BuiltinRule>,
     /// env key -> (atom -> (lo, hi))
-    memo: HashMap<Vec<MPred>, HashMap<MPred, (bool, bool)>>,
+    memo: HashMap<Vec<MPred>, HashMap<MPred, (bool, bool, bool)>>,
+    /// whether the last `pred` query's derivation stayed entirely inside the size bound
+    pub last_clean: bool,
     pub atoms_evaluated: usize,
     /// cap on the reachable set of one query; beyond it the verdict is Unknown
     pub reach_cap: usize,
@@ -641,7 +648,7 @@ pub struct Sem<'a> {
 
 impl<'a> Sem<'a> {
     pub fn new(prog: &'a MProgram, atom_max: usize) -> Self {
-        Sem { prog, atom_max, builtin: None, memo: HashMap::new(), atoms_evaluated: 0, reach_cap: 20000 }
+        Sem { prog, atom_max, builtin: None, memo: HashMap::new(), last_clean: true, atoms_evaluated: 0, reach_cap: 20000 }
     }
 
     fn in_bounds(&self, p: &MPred) -> bool {
@@ -658,6 +665,20 @@ impl<'a> Sem<'a> {
         let mut set: BTreeSet<MPred> = hyps.iter().cloned().collect();
         let mut work: Vec<MPred> = hyps.to_vec();
         while let Some(h) = work.pop() {
+            if h.tr == FROM_ENV_TY {
+                // FromEnv(S<a..>) => FromEnv(wc[a..]) for the struct's where-clauses
+                if let MTy::App(n, args) = &h.args[0] {
+                    if let Some(st) = self.prog.st(n) {
+                        for wc in &st.wheres {
+                            let inst = wc.subst(&|i| args[i].clone());
+                            if set.insert(inst.clone()) {
+                                work.push(inst);
+                            }
+                        }
+                    }
+                }
+                continue;
+            }
             let tr = self.prog.tr(&h.tr);
             for sup in &tr.supers {
                 let inst = sup.subst(&|i| h.args[i].clone());
@@ -734,14 +755,17 @@ impl<'a> Sem<'a> {
         assert!(p.is_ground(), "model: non-ground atom {:?}", p);
         let key = Self::env_key(hyps);
         if let Some(m) = self.memo.get(&key) {
-            if let Some((lo, hi)) = m.get(p) {
+            if let Some((lo, hi, clean)) = m.get(p) {
+                self.last_clean = *clean;
                 return tri(*lo, *hi);
             }
         }
         let env = self.elaborate(&key);
         if !self.in_bounds(p) && !env.contains(p) {
+            self.last_clean = false;
             return Tri::Unknown;
         }
+        let mut clean = true;
         // reachable closure
         let mut reach: Vec<MPred> = vec![p.clone()];
         let mut index: HashMap<MPred, usize> = HashMap::new();
@@ -758,10 +782,12 @@ impl<'a> Sem<'a> {
                     if index.contains_key(b) {
                         continue;
                     }
-                    if known.map_or(false, |m| m.contains_key(b)) {
+                    if let Some(kn) = known.and_then(|m| m.get(b)) {
+                        clean &= kn.2;
                         continue;
                     }
                     if !self.in_bounds(b) && !env.contains(b) {
+                        clean = false;
                         continue;
                     }
                     index.insert(b.clone(), reach.len());
@@ -776,6 +802,7 @@ impl<'a> Sem<'a> {
             }
         }
         if capped {
+            self.last_clean = false;
             return Tri::Unknown;
         }
         self.atoms_evaluated += reach.len();
@@ -784,7 +811,7 @@ impl<'a> Sem<'a> {
             let lookup = |truth: &Vec<bool>, b: &MPred| -> bool {
                 if let Some(&j) = index.get(b) {
                     truth[j]
-                } else if let Some((lo, hi)) = known.and_then(|m| m.get(b)) {
+                } else if let Some((lo, hi, _)) = known.and_then(|m| m.get(b)) {
                     if oob {
                         *hi
                     } else {
@@ -838,8 +865,9 @@ impl<'a> Sem<'a> {
         let hi = run(true);
         let m = self.memo.entry(key).or_default();
         for (j, a) in reach.into_iter().enumerate() {
-            m.insert(a, (lo[j], hi[j]));
+            m.insert(a, (lo[j], hi[j], clean));
         }
+        self.last_clean = clean;
         tri(lo[0], hi[0])
     }
 
